@@ -7,6 +7,8 @@
 (*              lines, then blank lines, then the count line, then edges   *)
 (*   header ::= "# text"               -- the first header line is the id  *)
 (*   S-line ::= "#S n1 n2 ..."         -- a subpath constraint             *)
+(*   fields of S-lines and edge lines are separated by whitespace: a       *)
+(*   space or a tab (Separators)                                           *)
 (*   count  ::= integer                -- number of vertices               *)
 (*   edge   ::= "u v w"                                                    *)
 (*                                                                         *)
@@ -31,36 +33,39 @@ ConsOf(sh) == CASE sh = 1 -> <<"a", "b", "c">> [] sh = 2 -> <<"s", "a", "b">> []
 Corruptions == {"none", "edge_2_fields", "edge_4_fields", "weight_not_numeric", "count_not_numeric", "constraint_absent_edge"}
 ConsKinds == {"none", "one", "duplicate", "single_node", "two"}
 
-BlockDescs == [shape : 1..Len(Shapes), nhead : 1..2, cons : ConsKinds, blanks : 0..1, extra : BOOLEAN, corr : Corruptions]
+Separators == {"space", "tab"}        \* the field separator of S-lines and edge lines: any whitespace separates fields
+BlockDescs == [shape : 1..Len(Shapes), nhead : 1..2, cons : ConsKinds, blanks : 0..1, extra : BOOLEAN, corr : Corruptions,
+               sep : Separators]
+Sep(b) == IF b.sep = "tab" THEN "\t" ELSE " "
 
-RECURSIVE JoinSp(_)
-JoinSp(s) == IF Len(s) = 0 THEN "" ELSE IF Len(s) = 1 THEN s[1] ELSE s[1] \o " " \o JoinSp(Tail(s))
+RECURSIVE JoinSp(_, _)
+JoinSp(s, sp) == IF Len(s) = 0 THEN "" ELSE IF Len(s) = 1 THEN s[1] ELSE s[1] \o sp \o JoinSp(Tail(s), sp)
 NodesOf(edges) == {edges[i][1] : i \in 1..Len(edges)} \cup {edges[i][2] : i \in 1..Len(edges)}
 
 ConsLines(b) ==
   LET c == ConsOf(b.shape)
       rev == <<c[2], c[1]>>      \* a second, different constraint?  only valid if that edge exists: use a prefix instead
   IN CASE b.cons = "none" -> <<>>
-       [] b.cons = "one" -> <<"#S " \o JoinSp(c)>>
-       [] b.cons = "duplicate" -> <<"#S " \o JoinSp(c), "#S " \o JoinSp(c)>>
-       [] b.cons = "single_node" -> <<"#S " \o c[1]>>
-       [] b.cons = "two" -> <<"#S " \o JoinSp(c), "#S " \o JoinSp(SubSeq(c, 1, 2))>>
+       [] b.cons = "one" -> <<"#S" \o Sep(b) \o JoinSp(c, Sep(b))>>
+       [] b.cons = "duplicate" -> <<"#S" \o Sep(b) \o JoinSp(c, Sep(b)), "#S" \o Sep(b) \o JoinSp(c, Sep(b))>>
+       [] b.cons = "single_node" -> <<"#S" \o Sep(b) \o c[1]>>
+       [] b.cons = "two" -> <<"#S" \o Sep(b) \o JoinSp(c, Sep(b)), "#S" \o Sep(b) \o JoinSp(SubSeq(c, 1, 2), Sep(b))>>
 
-EdgeLine(e, corr, first) ==
-  IF ~first \/ corr \notin {"edge_2_fields", "edge_4_fields", "weight_not_numeric"} THEN e[1] \o " " \o e[2] \o " " \o ToString(e[3])
-  ELSE IF corr = "edge_2_fields" THEN e[1] \o " " \o e[2]
-  ELSE IF corr = "edge_4_fields" THEN e[1] \o " " \o e[2] \o " " \o ToString(e[3]) \o " 9"
-  ELSE e[1] \o " " \o e[2] \o " abc"
+EdgeLine(e, corr, first, sp) ==
+  IF ~first \/ corr \notin {"edge_2_fields", "edge_4_fields", "weight_not_numeric"} THEN e[1] \o sp \o e[2] \o sp \o ToString(e[3])
+  ELSE IF corr = "edge_2_fields" THEN e[1] \o sp \o e[2]
+  ELSE IF corr = "edge_4_fields" THEN e[1] \o sp \o e[2] \o sp \o ToString(e[3]) \o sp \o "9"
+  ELSE e[1] \o sp \o e[2] \o sp \o "abc"
 
 Lines(b, idtxt) ==
   LET edges == Shapes[b.shape] IN
   <<"# " \o idtxt>> \o (IF b.nhead = 2 THEN <<"# second header line">> ELSE <<>>)
   \o ConsLines(b)
-  \o (IF b.corr = "constraint_absent_edge" THEN <<"#S " \o edges[1][2] \o " " \o edges[1][1]>> ELSE <<>>)
+  \o (IF b.corr = "constraint_absent_edge" THEN <<"#S" \o Sep(b) \o edges[1][2] \o Sep(b) \o edges[1][1]>> ELSE <<>>)
   \o (IF b.extra THEN <<"# an extra comment">> ELSE <<>>)
   \o (IF b.blanks = 1 THEN <<"">> ELSE <<>>)
   \o <<IF b.corr = "count_not_numeric" THEN "four" ELSE ToString(Cardinality(NodesOf(edges)))>>
-  \o [i \in 1..Len(edges) |-> EdgeLine(edges[i], b.corr, i = Len(edges))]
+  \o [i \in 1..Len(edges) |-> EdgeLine(edges[i], b.corr, i = Len(edges), Sep(b))]
 
 Pairs(c) == [i \in 1..(Len(c) - 1) |-> <<c[i], c[i + 1]>>]
 ConsMeaning(b) ==
